@@ -15,7 +15,7 @@ for c in commits:
     mapping[c] = new
     print("picked", c, "->", new, sh("git", "-C", "/repo", "log", "--format=%s", "-1").stdout.strip())
 # 2. copy new files
-skip = re.compile(r"^(work|harness/target|harness-tokio/target|lean/\.lake|replays|evidence|\.git)/|__pycache__")
+skip = re.compile(r"^(work|harness/target|harness/target-one|harness-tokio/target|lean/\.lake|replays|evidence|\.git)/|__pycache__")
 for root, dirs, files in os.walk(W):
     for fn in files:
         p = os.path.join(root, fn); rel = os.path.relpath(p, W)
